@@ -9,6 +9,8 @@ import (
 	"go/types"
 	"sort"
 	"strings"
+
+	"golang.org/x/tools/go/cfg"
 )
 
 func init() { register("C07", false, runC07) }
@@ -268,11 +270,22 @@ func c07ImageSelection(c *Ctx, info *types.Info) {
 	if nw == nil {
 		return
 	}
-	ng := c.P.Graph(nw)
-	for _, h := range ng.Find(func(n ast.Node) bool {
-		as, ok := n.(*ast.AssignStmt)
-		return ok && len(as.Lhs) == 1 && lhsPath(info, as.Lhs[0]) == "Vaxis.graphicsProtocol"
-	}) {
+	// (in New itself or in a function of the package it reaches during start-up)
+	type site struct {
+		h  Hit
+		fi *FuncInfo
+	}
+	var sites []site
+	for _, sfi := range c07StartupFuncs(c, nw) {
+		for _, h := range c.P.Graph(sfi).Find(func(n ast.Node) bool {
+			as, ok := n.(*ast.AssignStmt)
+			return ok && len(as.Lhs) == 1 && lhsPath(info, as.Lhs[0]) == "Vaxis.graphicsProtocol"
+		}) {
+			sites = append(sites, site{h, sfi})
+		}
+	}
+	for _, st := range sites {
+		h := st.h
 		as := h.Node.(*ast.AssignStmt)
 		val := types.ExprString(as.Rhs[0])
 		if val != "kitty" && val != "sixelGraphics" {
@@ -484,7 +497,14 @@ func c07Provenance(c *Ctx, fi *FuncInfo, at Loc, obj types.Object, depth int) (b
 		if !reachAny {
 			continue
 		}
+		// the definition reaches the emission without RGB support if it is itself executed on such a path (its own
+		// dominating guards: `if caps.rgb { ps = c.Params() } else { ... }`) and then flows to the emission
 		reachNoRGB := g.reachesUnder(dl, at, isDef, sigma)
+		if reachNoRGB && len(sigma) > 0 {
+			if holds, _ := g.reachableUnder(dl, sigma); !holds {
+				reachNoRGB = false
+			}
+		}
 		if d.rhs == nil {
 			continue // zero value: an empty slice selects no direct-colour form
 		}
@@ -494,6 +514,12 @@ func c07Provenance(c *Ctx, fi *FuncInfo, at Loc, obj types.Object, depth int) (b
 		}
 		if x := c07ParamsRecv(info, d.rhs, false); x != "" {
 			colours[canonExprOrString(info, d.rhs, false)] = true
+			// `if !caps.rgb { c = c.asIndex() }; ps := c.Params()`: the colour itself was replaced by its palette form
+			if reachNoRGB {
+				if okC, _ := c07ColourIndexed(c, fi, dl, d.rhs, sigma); okC {
+					continue
+				}
+			}
 			if reachNoRGB {
 				return false, fmt.Sprintf("%s = %s reaches the emission on a path where caps.rgb is false", obj.Name(), types.ExprString(d.rhs))
 			}
@@ -550,7 +576,131 @@ func c07Provenance(c *Ctx, fi *FuncInfo, at Loc, obj types.Object, depth int) (b
 	return true, ""
 }
 
+// c07ColourIndexed: rhs is X.Params() with X a local colour variable; on every path without RGB support the
+// value of X at location at was produced by `X = X.asIndex()` (the palette form of the same colour).
+func c07ColourIndexed(c *Ctx, fi *FuncInfo, at Loc, rhs ast.Expr, sigma map[string]bool) (bool, string) {
+	info := fi.Pkg.TypesInfo
+	g := c.P.Graph(fi)
+	call, ok := unparen(rhs).(*ast.CallExpr)
+	if !ok {
+		return false, ""
+	}
+	sel, ok := call.Fun.(*ast.SelectorExpr)
+	if !ok {
+		return false, ""
+	}
+	id, ok := unparen(sel.X).(*ast.Ident)
+	if !ok {
+		return false, "the colour is not a local variable"
+	}
+	obj := info.ObjectOf(id)
+	if v, isVar := obj.(*types.Var); !isVar || v.Parent() == nil || v.Pkg() == nil || v.Parent() == v.Pkg().Scope() {
+		return false, "the colour is not a local variable"
+	}
+	if fi.Decl.Type.Params != nil {
+		for _, f := range fi.Decl.Type.Params.List {
+			for _, nm := range f.Names {
+				if info.Defs[nm] == obj {
+					return false, "the colour is a parameter"
+				}
+			}
+		}
+	}
+	type def struct {
+		node ast.Node
+		rhs  ast.Expr
+	}
+	var defs []def
+	escaped := false
+	inspectNoLit(fi.Decl.Body, func(x ast.Node) bool {
+		switch t := x.(type) {
+		case *ast.AssignStmt:
+			for i, l := range t.Lhs {
+				if lid, ok := l.(*ast.Ident); ok && info.ObjectOf(lid) == obj {
+					if len(t.Lhs) == len(t.Rhs) && (t.Tok == token.ASSIGN || t.Tok == token.DEFINE) {
+						defs = append(defs, def{t, t.Rhs[i]})
+					} else {
+						defs = append(defs, def{t, nil})
+					}
+				}
+			}
+		case *ast.ValueSpec:
+			for i, nm := range t.Names {
+				if info.Defs[nm] == obj {
+					if i < len(t.Values) {
+						defs = append(defs, def{t, t.Values[i]})
+					} else {
+						defs = append(defs, def{t, nil})
+					}
+				}
+			}
+		case *ast.RangeStmt:
+			for _, l := range []ast.Expr{t.Key, t.Value} {
+				if lid, ok := l.(*ast.Ident); ok && info.ObjectOf(lid) == obj {
+					defs = append(defs, def{t, nil})
+				}
+			}
+		case *ast.UnaryExpr:
+			if t.Op == token.AND {
+				if lid, ok := unparen(t.X).(*ast.Ident); ok && info.ObjectOf(lid) == obj {
+					escaped = true
+				}
+			}
+		}
+		return true
+	})
+	if escaped || len(defs) == 0 {
+		return false, "the colour variable has its address taken or no visible definition"
+	}
+	isDef := func(n ast.Node) bool {
+		for _, d := range defs {
+			if d.node == n {
+				return true
+			}
+		}
+		return false
+	}
+	n := 0
+	for _, d := range defs {
+		dl, ok := g.Locate(d.node)
+		if !ok {
+			return false, "a definition of the colour is not in the flow graph"
+		}
+		// does this definition reach `at` on a path without RGB support?
+		reach := dl == at || g.reachesUnder(dl, at, isDef, sigma)
+		if reach && len(sigma) > 0 {
+			if holds, _ := g.reachableUnder(dl, sigma); !holds {
+				reach = false
+			}
+		}
+		if !reach {
+			continue
+		}
+		n++
+		// must be <same variable>.asIndex()
+		okForm := false
+		if d.rhs != nil {
+			if c2, ok := unparen(d.rhs).(*ast.CallExpr); ok && len(c2.Args) == 0 {
+				if fn := calleeOf(info, c2); fn != nil && repoName(fn) == "vaxis.Color.asIndex" {
+					if s2, ok := c2.Fun.(*ast.SelectorExpr); ok {
+						if rid, ok := unparen(s2.X).(*ast.Ident); ok && info.ObjectOf(rid) == obj {
+							okForm = true
+						}
+					}
+				}
+			}
+		}
+		if !okForm {
+			return false, fmt.Sprintf("%s = %s reaches it without RGB support", obj.Name(), exprStr(d.rhs))
+		}
+	}
+	return n > 0, ""
+}
+
 func exprStr(e ast.Expr) string {
+	if e == nil {
+		return "<zero value>"
+	}
 	if _, ok := e.(*ast.BadExpr); ok {
 		return "<multi-value or range>"
 	}
@@ -609,6 +759,19 @@ func c07ParamsRecv(info *types.Info, e ast.Expr, viaIndex bool) string {
 	return types.ExprString(x)
 }
 
+// c07StartupFuncs: New and the functions of package vaxis it reaches by static calls.
+func c07StartupFuncs(c *Ctx, nw *FuncInfo) []*FuncInfo {
+	var startup []*FuncInfo
+	reach := staticReach(c.P, nw)
+	for _, fi := range c.P.FuncsIn("vaxis") {
+		if fi != nw && reach[fi.Name] && fi.Decl.Body != nil {
+			startup = append(startup, fi)
+		}
+	}
+	sort.Slice(startup, func(i, j int) bool { return startup[i].Name < startup[j].Name })
+	return append([]*FuncInfo{nw}, startup...)
+}
+
 func c07Chain(c *Ctx, info *types.Info, ems []*Emission) {
 	// step 1: New's type switch: event type -> capability flags set
 	nw := c.P.Func("vaxis.New")
@@ -618,33 +781,37 @@ func c07Chain(c *Ctx, info *types.Info, ems []*Emission) {
 		return
 	}
 	evCaps := map[string][]string{}
-	ast.Inspect(nw.Decl.Body, func(n ast.Node) bool {
-		ts, ok := n.(*ast.TypeSwitchStmt)
-		if !ok {
-			return true
-		}
-		for _, cl := range ts.Body.List {
-			cc := cl.(*ast.CaseClause)
-			var flags []string
-			for _, s := range cc.Body {
-				ast.Inspect(s, func(m ast.Node) bool {
-					if as, ok := m.(*ast.AssignStmt); ok && len(as.Lhs) == 1 && len(as.Rhs) == 1 {
-						p := lhsPath(info, as.Lhs[0])
-						if strings.HasPrefix(p, "Vaxis.caps.") {
-							if tv := info.Types[as.Rhs[0]]; tv.Value != nil && tv.Value.String() == "true" {
-								flags = append(flags, strings.TrimPrefix(p, "Vaxis.caps."))
+	// the dispatch on the reply event may sit in New itself or in a function of the package New calls (directly
+	// or not) during start-up
+	for _, sfi := range c07StartupFuncs(c, nw) {
+		ast.Inspect(sfi.Decl.Body, func(n ast.Node) bool {
+			ts, ok := n.(*ast.TypeSwitchStmt)
+			if !ok {
+				return true
+			}
+			for _, cl := range ts.Body.List {
+				cc := cl.(*ast.CaseClause)
+				var flags []string
+				for _, s := range cc.Body {
+					ast.Inspect(s, func(m ast.Node) bool {
+						if as, ok := m.(*ast.AssignStmt); ok && len(as.Lhs) == 1 && len(as.Rhs) == 1 {
+							p := lhsPath(info, as.Lhs[0])
+							if strings.HasPrefix(p, "Vaxis.caps.") {
+								if tv := info.Types[as.Rhs[0]]; tv.Value != nil && tv.Value.String() == "true" {
+									flags = append(flags, strings.TrimPrefix(p, "Vaxis.caps."))
+								}
 							}
 						}
-					}
-					return true
-				})
+						return true
+					})
+				}
+				for _, e := range cc.List {
+					evCaps[types.ExprString(e)] = append(evCaps[types.ExprString(e)], flags...)
+				}
 			}
-			for _, e := range cc.List {
-				evCaps[types.ExprString(e)] = flags
-			}
-		}
-		return true
-	})
+			return true
+		})
+	}
 	// step 2: post sites in handleSequence (and sendQueries for COLORTERM), helpers included
 	posts := c07Posts(c, func(ev string) bool { _, is := evCaps[ev]; return is && ev != "" })
 	// step 3: reference — reply context each capability event must come from, the flag it must set,
@@ -691,7 +858,7 @@ func c07Chain(c *Ctx, info *types.Info, ems []*Emission) {
 			for _, alt := range l.ctx {
 				all := true
 				for _, k := range alt {
-					if !containsStr(p.gk, k) {
+					if !c07HasKey(p.gk, k) {
 						all = false
 					}
 				}
@@ -710,6 +877,33 @@ func c07Chain(c *Ctx, info *types.Info, ems []*Emission) {
 			c.bad("C07.c", fmt.Sprintf("vaxis.(*Vaxis).handleSequence/%s posted", l.ev), hs.Decl.Pos(), "no reply posts %s: the capability can never be established", l.ev)
 		}
 	}
+}
+
+// c07HasKey: want is among the guard keys; a membership key x∈{a,b} matches whatever the order of the values.
+func c07HasKey(gk []string, want string) bool {
+	if containsStr(gk, want) {
+		return true
+	}
+	i := strings.Index(want, "∈{")
+	if i < 0 || !strings.HasSuffix(want, "}") {
+		return false
+	}
+	set := func(k string) (string, string) {
+		j := strings.Index(k, "∈{")
+		if j < 0 || !strings.HasSuffix(k, "}") {
+			return "", ""
+		}
+		vals := strings.Split(k[j+len("∈{"):len(k)-1], ",")
+		sort.Strings(vals)
+		return k[:j], strings.Join(vals, ",")
+	}
+	wl, wv := set(want)
+	for _, k := range gk {
+		if l, v := set(k); l != "" && l == wl && v == wv {
+			return true
+		}
+	}
+	return false
 }
 
 func c07Accessors(c *Ctx, info *types.Info) {
@@ -800,43 +994,7 @@ func c07Palette(c *Ctx, info *types.Info) {
 	if ai == nil {
 		return
 	}
-	var rng *ast.RangeStmt
-	ast.Inspect(ai.Decl.Body, func(n ast.Node) bool {
-		if r, ok := n.(*ast.RangeStmt); ok && rng == nil {
-			rng = r
-		}
-		return true
-	})
-	okScan := false
-	why := "no range loop"
-	if rng != nil {
-		why = "the scan ranges over " + types.ExprString(rng.X)
-		if id, ok := unparen(rng.X).(*ast.Ident); ok && id.Name == "colorIndex" {
-			okScan = true
-			// no continue/break before the comparison other than the exact-match early return
-			ast.Inspect(rng.Body, func(n ast.Node) bool {
-				if br, ok := n.(*ast.BranchStmt); ok && (br.Tok == token.CONTINUE || br.Tok == token.BREAK) {
-					okScan = false
-					why = "the scan skips entries (" + br.Tok.String() + ")"
-				}
-				return true
-			})
-		}
-	}
-	// more than one range loop over different subsets
-	nr := 0
-	ast.Inspect(ai.Decl.Body, func(n ast.Node) bool {
-		if _, ok := n.(*ast.RangeStmt); ok {
-			nr++
-		}
-		if _, ok := n.(*ast.ForStmt); ok {
-			nr++
-		}
-		return true
-	})
-	if nr != 1 {
-		okScan, why = false, fmt.Sprintf("%d loops in asIndex", nr)
-	}
+	okScan, why := c07WholeTableScan(c, ai, info)
 	c.check(okScan, "C07.e", "vaxis.Color.asIndex/scans the whole palette table", ai.Decl.Pos(), "one loop over colorIndex, no entry skipped", "nearest-colour search does not cover the whole table: "+why)
 	// returned index = position + 16
 	okOff := true
@@ -859,28 +1017,269 @@ func c07Palette(c *Ctx, info *types.Info) {
 
 	// C07.f signed differences
 	nsub := 0
-	ast.Inspect(ai.Decl.Body, func(x ast.Node) bool {
-		b, ok := x.(*ast.BinaryExpr)
-		if !ok || b.Op != token.SUB {
+	// asIndex and the functions of the package it calls to compute the distance (a distance helper)
+	bodies := []*FuncInfo{ai}
+	for depth, frontier := 0, []*FuncInfo{ai}; depth < 2 && len(frontier) > 0; depth++ {
+		var next []*FuncInfo
+		for _, f := range frontier {
+			ast.Inspect(f.Decl.Body, func(x ast.Node) bool {
+				if call, ok := x.(*ast.CallExpr); ok {
+					if hf := c.P.FuncOfObj(calleeOf(info, call)); hf != nil && hf.Pkg == ai.Pkg && hf.Decl.Body != nil {
+						dup := false
+						for _, b := range bodies {
+							if b == hf {
+								dup = true
+							}
+						}
+						if !dup {
+							bodies = append(bodies, hf)
+							next = append(next, hf)
+						}
+					}
+				}
+				return true
+			})
+		}
+		frontier = next
+	}
+	for _, bf := range bodies {
+		ast.Inspect(bf.Decl.Body, func(x ast.Node) bool {
+			b, ok := x.(*ast.BinaryExpr)
+			if !ok || b.Op != token.SUB {
+				return true
+			}
+			t := info.TypeOf(b)
+			bt, ok := t.Underlying().(*types.Basic)
+			if !ok {
+				return true
+			}
+			nsub++
+			key := fmt.Sprintf("vaxis.Color.asIndex/difference %s computed in a signed type", types.ExprString(b))
+			if bt.Info()&types.IsUnsigned != 0 {
+				c.bad("C07.f", key, b.Pos(), "the channel difference %s has unsigned type %s: it wraps modulo 256 when the palette entry is darker than the colour, so the weighted distance is wrong (RGB(1,1,1) maps to 232 instead of 16)", types.ExprString(b), bt.Name())
+			} else {
+				c.ok("C07.f", key, b.Pos(), "type %s", bt.Name())
+			}
 			return true
-		}
-		t := info.TypeOf(b)
-		bt, ok := t.Underlying().(*types.Basic)
-		if !ok {
-			return true
-		}
-		nsub++
-		key := fmt.Sprintf("vaxis.Color.asIndex/difference %s computed in a signed type", types.ExprString(b))
-		if bt.Info()&types.IsUnsigned != 0 {
-			c.bad("C07.f", key, b.Pos(), "the channel difference %s has unsigned type %s: it wraps modulo 256 when the palette entry is darker than the colour, so the weighted distance is wrong (RGB(1,1,1) maps to 232 instead of 16)", types.ExprString(b), bt.Name())
-		} else {
-			c.ok("C07.f", key, b.Pos(), "type %s", bt.Name())
-		}
-		return true
-	})
+		})
+	}
 	if nsub < 3 {
 		c.undecided("C07.f", "vaxis.Color.asIndex/three channel differences", ai.Decl.Pos(), "expected three channel differences, found %d", nsub)
 	}
+}
+
+// c07WholeTableScan: asIndex has exactly one loop; it visits every entry of the palette table (a range over the
+// table, or an index loop from 0 while i < len(table) by steps of 1 that reads table[i]); and in every iteration
+// the candidate's distance is compared before the iteration can end (no `continue`/`break` that skips an entry
+// or the rest of the table without having looked at its distance).
+func c07WholeTableScan(c *Ctx, ai *FuncInfo, info *types.Info) (bool, string) {
+	isTable := func(e ast.Expr) bool {
+		id, ok := unparen(e).(*ast.Ident)
+		if !ok {
+			return false
+		}
+		o := info.ObjectOf(id)
+		if src := singleDefOf(info, o); src != nil {
+			if id2, ok := unparen(src).(*ast.Ident); ok {
+				o = info.ObjectOf(id2)
+			}
+		}
+		v, ok := o.(*types.Var)
+		return ok && v.Pkg() != nil && v.Parent() == v.Pkg().Scope() && v.Name() == "colorIndex"
+	}
+	var loops []ast.Stmt
+	ast.Inspect(ai.Decl.Body, func(n ast.Node) bool {
+		switch n.(type) {
+		case *ast.RangeStmt, *ast.ForStmt:
+			loops = append(loops, n.(ast.Stmt))
+		}
+		return true
+	})
+	if len(loops) == 0 {
+		return false, "no loop over the table"
+	}
+	if len(loops) != 1 {
+		return false, fmt.Sprintf("%d loops in asIndex", len(loops))
+	}
+	var body *ast.BlockStmt
+	var idxObj types.Object // the position variable: comparisons on it are not comparisons of distances
+	switch l := loops[0].(type) {
+	case *ast.RangeStmt:
+		if !isTable(l.X) {
+			return false, "the scan ranges over " + types.ExprString(l.X)
+		}
+		body = l.Body
+		if id, ok := l.Key.(*ast.Ident); ok && id.Name != "_" {
+			idxObj = info.ObjectOf(id)
+		}
+	case *ast.ForStmt:
+		body = l.Body
+		// for i := 0; i < len(table); i++ / i += 1
+		var iv types.Object
+		if as, ok := l.Init.(*ast.AssignStmt); ok && len(as.Lhs) == 1 && len(as.Rhs) == 1 {
+			if id, ok := as.Lhs[0].(*ast.Ident); ok {
+				if v, isC := constInt(info, as.Rhs[0]); isC && v == 0 {
+					iv = info.ObjectOf(id)
+				}
+			}
+		}
+		if iv == nil {
+			return false, "the index loop does not start at entry 0"
+		}
+		idxObj = iv
+		isIV := func(e ast.Expr) bool { id, ok := unparen(e).(*ast.Ident); return ok && info.ObjectOf(id) == iv }
+		isLenTable := func(e ast.Expr) bool {
+			call, ok := unparen(e).(*ast.CallExpr)
+			if ok {
+				if id, ok := call.Fun.(*ast.Ident); ok && id.Name == "len" && len(call.Args) == 1 && isTable(call.Args[0]) {
+					return true
+				}
+			}
+			// the table is an array or a literal of known length: the constant bound equal to it
+			if v, isC := constInt(info, e); isC {
+				if tv := c.P.Pkg("vaxis").Types.Scope().Lookup("colorIndex"); tv != nil {
+					if lit := c.P.ReadOnlyTable(tv.(*types.Var)); lit != nil && int64(len(lit.Elts)) == v {
+						return true
+					}
+				}
+			}
+			return false
+		}
+		okCond := false
+		if be, ok := unparen(l.Cond).(*ast.BinaryExpr); ok {
+			switch {
+			case (be.Op == token.LSS || be.Op == token.NEQ) && isIV(be.X) && isLenTable(be.Y):
+				okCond = true
+			case (be.Op == token.GTR || be.Op == token.NEQ) && isIV(be.Y) && isLenTable(be.X):
+				okCond = true
+			}
+		}
+		if !okCond {
+			return false, "the index loop does not run to the end of the table (condition " + types.ExprString(l.Cond) + ")"
+		}
+		okPost := false
+		switch p := l.Post.(type) {
+		case *ast.IncDecStmt:
+			okPost = p.Tok == token.INC && isIV(p.X)
+		case *ast.AssignStmt:
+			if len(p.Lhs) == 1 && len(p.Rhs) == 1 && isIV(p.Lhs[0]) {
+				if v, isC := constInt(info, p.Rhs[0]); isC && v == 1 && p.Tok == token.ADD_ASSIGN {
+					okPost = true
+				}
+				if be, ok := unparen(p.Rhs[0]).(*ast.BinaryExpr); ok && p.Tok == token.ASSIGN && be.Op == token.ADD {
+					if v, isC := constInt(info, be.Y); isC && v == 1 && isIV(be.X) {
+						okPost = true
+					}
+					if v, isC := constInt(info, be.X); isC && v == 1 && isIV(be.Y) {
+						okPost = true
+					}
+				}
+			}
+		}
+		if !okPost {
+			return false, "the index loop does not step through the table one entry at a time"
+		}
+		// the index is not modified in the body, and the entry read is table[i]
+		reads, writes := false, false
+		ast.Inspect(l.Body, func(n ast.Node) bool {
+			switch t := n.(type) {
+			case *ast.AssignStmt:
+				for _, lh := range t.Lhs {
+					if isIV(lh) {
+						writes = true
+					}
+				}
+			case *ast.IncDecStmt:
+				if isIV(t.X) {
+					writes = true
+				}
+			case *ast.IndexExpr:
+				if isTable(t.X) && isIV(t.Index) {
+					reads = true
+				}
+			}
+			return true
+		})
+		if writes {
+			return false, "the loop index is modified inside the loop"
+		}
+		if !reads {
+			return false, "the loop does not read the table entry at its index"
+		}
+	}
+	// every iteration compares the candidate's distance before it can end
+	g := c.P.Graph(ai)
+	isDistCmp := func(n ast.Node) bool {
+		be, ok := n.(*ast.BinaryExpr)
+		if !ok {
+			return false
+		}
+		switch be.Op {
+		case token.LSS, token.LEQ, token.GTR, token.GEQ:
+		default:
+			return false
+		}
+		isNum := func(e ast.Expr) bool {
+			bt, ok := info.TypeOf(e).Underlying().(*types.Basic)
+			return ok && bt.Info()&(types.IsFloat|types.IsInteger) != 0
+		}
+		if !isNum(be.X) || !isNum(be.Y) {
+			return false
+		}
+		// a comparison that involves a value computed in the loop body from the entry (not the bare index)
+		_, xc := constInt(info, be.X)
+		_, yc := constInt(info, be.Y)
+		if xc || yc {
+			return false
+		}
+		if idxObj != nil && (objsIn(info, be.X)[idxObj] || objsIn(info, be.Y)[idxObj]) {
+			return false
+		}
+		return true
+	}
+	var bodyBlk *cfg.Block
+	for _, b := range g.Blocks {
+		if (b.Kind == cfg.KindForBody || b.Kind == cfg.KindRangeBody) && b.Stmt == loops[0] {
+			bodyBlk = b
+		}
+	}
+	if bodyBlk == nil {
+		return false, "the loop body is not in the flow graph"
+	}
+	start := Loc{bodyBlk, -1}
+	if g.reachesNextIteration(start, isDistCmp, loops[0]) {
+		return false, "an iteration can end before the entry's distance is compared (an entry is skipped)"
+	}
+	// leaving the loop early (break) without having compared the current entry skips the rest of the table
+	skipsRest := false
+	seen := map[*cfg.Block]bool{}
+	var visit func(l Loc)
+	visit = func(l Loc) {
+		if l.Idx == 0 {
+			if seen[l.B] {
+				return
+			}
+			seen[l.B] = true
+			if (l.B.Kind == cfg.KindForDone || l.B.Kind == cfg.KindRangeDone) && l.B.Stmt == loops[0] {
+				skipsRest = true
+				return
+			}
+		}
+		for i := l.Idx; i < len(l.B.Nodes); i++ {
+			if containsNode(l.B.Nodes[i], isDistCmp) {
+				return
+			}
+		}
+		for _, s := range l.B.Succs {
+			visit(Loc{s, 0})
+		}
+	}
+	visit(Loc{bodyBlk, 0})
+	if skipsRest {
+		return false, "the loop can be left (break) before the current entry's distance is compared"
+	}
+	_ = body
+	return true, ""
 }
 
 func stripConv(info *types.Info, e ast.Expr) ast.Expr {
@@ -920,7 +1319,7 @@ func c07WidthDecision(c *Ctx, info *types.Info) {
 		return out, fi
 	}
 	for _, fn := range []struct {
-		name    string
+		name     string
 		implicit string // method used when no gwidth call is selected
 	}{{"vaxis.(*Vaxis).RenderedWidth", ""}, {"vaxis.(*Vaxis).NewStyledString", "unicodeStd"}} {
 		sites, fi := collect(fn.name)
@@ -1034,6 +1433,70 @@ func c07InterpWidth(c *Ctx, fi *FuncInfo, sigma map[string]bool) ([]string, stri
 	return got, ""
 }
 
+type c07Def struct {
+	node  ast.Node
+	rhs   ast.Expr // nil: zero value or not a single expression
+	isDef func(ast.Node) bool
+}
+
+// c07LocalDefs: the statements of fi that define the local variable obj (nil if obj is not a local of fi, is a
+// parameter, or has its address taken).
+func c07LocalDefs(fi *FuncInfo, obj types.Object) []c07Def {
+	info := fi.Pkg.TypesInfo
+	v, isVar := obj.(*types.Var)
+	if !isVar || v.IsField() || v.Parent() == nil || v.Pkg() == nil || v.Parent() == v.Pkg().Scope() {
+		return nil
+	}
+	var defs []c07Def
+	escaped := false
+	inspectNoLit(fi.Decl.Body, func(x ast.Node) bool {
+		switch t := x.(type) {
+		case *ast.AssignStmt:
+			for i, l := range t.Lhs {
+				if id, ok := l.(*ast.Ident); ok && info.ObjectOf(id) == obj {
+					if len(t.Lhs) == len(t.Rhs) && (t.Tok == token.ASSIGN || t.Tok == token.DEFINE) {
+						defs = append(defs, c07Def{node: t, rhs: t.Rhs[i]})
+					} else {
+						defs = append(defs, c07Def{node: t})
+					}
+				}
+			}
+		case *ast.ValueSpec:
+			for i, nm := range t.Names {
+				if info.Defs[nm] == obj {
+					if i < len(t.Values) {
+						defs = append(defs, c07Def{node: t, rhs: t.Values[i]})
+					} else {
+						defs = append(defs, c07Def{node: t})
+					}
+				}
+			}
+		case *ast.UnaryExpr:
+			if t.Op == token.AND {
+				if id, ok := unparen(t.X).(*ast.Ident); ok && info.ObjectOf(id) == obj {
+					escaped = true
+				}
+			}
+		}
+		return true
+	})
+	if escaped {
+		return nil
+	}
+	isDef := func(n ast.Node) bool {
+		for _, d := range defs {
+			if d.node == n {
+				return true
+			}
+		}
+		return false
+	}
+	for i := range defs {
+		defs[i].isDef = isDef
+	}
+	return defs
+}
+
 type c07Post struct {
 	ev  string
 	gk  []string
@@ -1064,19 +1527,48 @@ func c07Posts(c *Ctx, want func(ev string) bool) []c07Post {
 				if len(call.Args) != 1 {
 					continue
 				}
-				ev := ""
-				switch a := unparen(call.Args[0]).(type) {
-				case *ast.CompositeLit:
-					ev = types.ExprString(a.Type)
-				case *ast.CallExpr:
-					if tv, ok := info.Types[a.Fun]; ok && tv.IsType() {
-						ev = types.ExprString(a.Fun)
+				evOf := func(x ast.Expr) string {
+					switch a := unparen(x).(type) {
+					case *ast.CompositeLit:
+						return types.ExprString(a.Type)
+					case *ast.CallExpr:
+						if tv, ok := info.Types[a.Fun]; ok && tv.IsType() {
+							return types.ExprString(a.Fun)
+						}
 					}
+					return ""
 				}
+				ev := evOf(call.Args[0])
 				if want(ev) {
 					gk := append(append([]string{}, outer...), guardKeys(g, h.Loc)...)
 					sort.Strings(gk)
 					posts = append(posts, c07Post{ev, gk, call.Pos()})
+				}
+				// the event is held in a local variable (`supported = synchronizedUpdates{}` in one branch, one
+				// shared post afterwards): every assignment that can reach the post is a post of that event, in
+				// the context of the assignment and of the post together
+				if id, ok := unparen(call.Args[0]).(*ast.Ident); ok && ev == "" {
+					for _, d := range c07LocalDefs(fi, info.ObjectOf(id)) {
+						dev := ""
+						if d.rhs != nil {
+							dev = evOf(d.rhs)
+						}
+						if !want(dev) {
+							continue
+						}
+						dl, okL := g.Locate(d.node)
+						if !okL || !g.reachesUnder(dl, h.Loc, d.isDef, nil) {
+							continue
+						}
+						gk := append(append([]string{}, outer...), guardKeys(g, h.Loc)...)
+						for _, k := range guardKeys(g, dl) {
+							if !containsStr(gk, k) {
+								gk = append(gk, k)
+							}
+						}
+						sort.Strings(gk)
+						posts = append(posts, c07Post{dev, gk, call.Pos()})
+					}
 				}
 				continue
 			}
